@@ -916,10 +916,8 @@ fn apply_tile(input: Image, region: IntRect) -> Result<Image, Error> {
         .unwrap();
     pixmap.fill_rect(rect, &paint, tiny_skia::Transform::identity(), None);
 
-    Ok(Image::from_image(
-        pixmap,
-        usvg::filter::ColorInterpolation::SRGB,
-    ))
+    // The pixels are copied as is, so they are still in the color space of the input.
+    Ok(Image::from_image(pixmap, input.color_space))
 }
 
 fn apply_image(
